@@ -193,6 +193,8 @@ func (r *Batcher) Enqueue(op IOperation) error {
 		case r.buffer <- op:
 			// successfully queued
 		default:
+			// the operation was not accepted so it must not count towards the target
+			r.incTarget(-int(op.Cost()))
 			return BufferFullError{}
 		}
 	} else {
